@@ -7,6 +7,10 @@ CLAIMED = {
    text="TLC model-checks the loaders' index arithmetic (DataLoaders.tla Impl) against the property (Abs: pairing, size, coverage, aggregation) for every size tuple up to the bound, and every loader configuration TLC enumerates is iterated once on the REAL PointsDataLoader / DeepONetDataLoader / DataCondition; TLC validates each recorded pass against Abs.",
    note="Trusted: TLC, the id encoding of the tensors (cell value reveals (function, location)), float64 identity model for aggregated losses. Bounded: data-set sizes <= 7 (quick) / 9 (thorough), batch sizes <= 8 / 10 and -1.",
    technique="TLA+ Impl=>Abs model checking + TLC trace validation of exhaustively enumerated loader passes", ref="5 C16"),
+ "C15": dict(
+   text="TLC checks the refinement StaticImpl (the code's counter/cache machine) => StaticAbs (run lengths as the property states them) and the adaptive replacement rule => Abs for all histories up to the bound; TLC-generated call histories (exhaustive short, random long) are replayed on real sampler objects and every recorded history is validated step by step against the Abs machine by TLC; the random variant's keep frequencies are judged by TLC against a binomial acceptance region.",
+   note="Trusted: TLC; identification of point sets by value (fresh random draws are distinct a.s.); z=6 acceptance region for the random variant. Bounded: intervals {1..5,7,inf}, histories <= 24 calls, loss vectors over 0..4 with n <= 5, ratios {0,1/4,1/2,3/4,1}.",
+   technique="TLA+ refinement checking (TLC) + TLC-generated behaviours replayed into the code + TLC trace validation", ref="5 C15"),
 }
 PENDING_REASON = "check not built yet in this round (design in DESIGN.md section 5); not claimed"
 
